@@ -150,11 +150,12 @@ def check(case, rec: Rec) -> None:
                 if it["longdate"]:
                     rest = rest[len(it["longdate"]):].lstrip(" ")
                 # the statement: ZID inserted after the prefix, taking the place of a leading long date
-                m = re.match(r"^" + re.escape(head) + r"(\d{6}#[0-9A-Za-z]{2,3}) (.*)$", b)
+                # (spacing between prefix, ZID and rest is not fixed by the statement)
+                m = re.match(r"^" + r" +".join(re.escape(w) for w in head.split()) + r" +(\d{6}#[0-9A-Za-z]{2,3})( +(.*))?$", b)
                 if not m:
                     raise Violation("zid-not-inserted", f"{rel}:{i}: {a!r} -> {b!r}: no ZID after the prefix")
-                zid, new_rest = m.group(1), m.group(2)
-                if new_rest != rest:
+                zid, new_rest = m.group(1), (m.group(3) or "")
+                if new_rest.strip(" ") != rest.strip(" "):
                     raise Violation("first-line-rest-changed",
                                     f"{rel}:{i}: {a!r} -> {b!r}: text after the new ZID is {new_rest!r}, original rest "
                                     f"{rest!r}")
